@@ -30,4 +30,19 @@ CLAIMED['C14'] = dict(
     technique='deductive verification: Hoare loop rule instantiated on the real loops (cbmc + cvc5), ghost prefix sums and ghost indices; '
               'native differential replay for counterexamples',
     design='§6 C14')
+CLAIMED['C16'] = dict(
+    text='Proof: AlignedFileAdaptor::pread and ::pwrite (with the real range_split_power2) are lowered from /repo on every run and '
+         'verified loop-free over all offsets/counts (count <= 2^32), all power-of-two alignments up to 1 MiB, both memory-alignment '
+         'modes and all file sizes: every request reaching the underlying file has aligned offset, length and (when requested) '
+         'memory; results equal those of a plain file (byte counts, resulting size, and - by provenance tracking of one '
+         'solver-chosen cell - the position every byte lands at, including zero fill and write-back of untouched bytes).  '
+         'FixedSizeLinearFile::pio and VariableSizeLinearFile::pio are verified with the Hoare loop rule on the real loop over '
+         'all_parts() against the abstract range split of C15: every sub-request goes to the sub-file holding the logical '
+         'position, at the right offset, inside the sub-file and the caller buffer; the return value is clipped to the composite size.',
+    note=TRUST + ' The underlying files are healthy plain files (no errors, no short transfers except the modelled failure flag in pio); '
+         'StripeFile::pio, the vectored (preadv2_mutable/pwritev2_mutable) paths and multi-operation sequences are not under contract; '
+         'IOAlloc returns aligned memory when align_memory is set (assumed).',
+    technique='deductive verification: loop-free full-domain harnesses and Hoare loop rule (cbmc + cadical) on mechanically lowered real code, '
+              'underlay stubs whose preconditions are the alignment clause, ghost provenance tracking',
+    design='§6 C16')
 NA = {}
